@@ -451,6 +451,11 @@ func (c *Crew) RunMachines(ctx context.Context, msg interface{}) (map[string]*co
 	acc := make(map[string]*core.Walked, len(mids))
 
 	for _, mid := range mids {
+		if _, done := acc[mid]; done {
+			// A machine named more than once still sees
+			// the message once.
+			continue
+		}
 		if m, have := c.Machines[mid]; have {
 			walked, err := c.RunMachine(ctx, msg, m)
 			if err != nil {
